@@ -110,12 +110,14 @@ func (s *Solver) send(txt string) {
 }
 
 // readSexp reads one line-or-s-expression answer (balanced parentheses).
-func (s *Solver) readAnswer() (string, error) {
+func (s *Solver) readAnswer() (string, error) { return readAnswerFrom(s.out) }
+
+func readAnswerFrom(out *bufio.Reader) (string, error) {
 	var sb strings.Builder
 	depth := 0
 	started := false
 	for {
-		line, err := s.out.ReadString('\n')
+		line, err := out.ReadString('\n')
 		if err != nil {
 			return sb.String(), err
 		}
@@ -143,6 +145,28 @@ func (s *Solver) readAnswer() (string, error) {
 	}
 }
 
+// readAnswerTimed enforces a hard wall-clock limit (z3 does not always honour :timeout, e.g.
+// inside nlsat); on expiry the caller restarts the solver and the query counts as unknown.
+func (s *Solver) readAnswerTimed() (string, error) {
+	type res struct {
+		a   string
+		err error
+	}
+	ch := make(chan res, 1)
+	out := s.out
+	go func() {
+		a, err := readAnswerFrom(out)
+		ch <- res{a, err}
+	}()
+	limit := time.Duration(s.timeoutMs)*time.Millisecond*3/2 + 3*time.Second
+	select {
+	case r := <-ch:
+		return r.a, r.err
+	case <-time.After(limit):
+		return "", fmt.Errorf("no answer within %v", limit)
+	}
+}
+
 // Check decides the conjunction of the assertions. If wantModel, values of vars are returned.
 func (s *Solver) Check(asserts []*Term, wantModel bool) (Result, map[string]string, string) {
 	t0 := time.Now()
@@ -162,11 +186,11 @@ func (s *Solver) Check(asserts []*Term, wantModel bool) (Result, map[string]stri
 	}
 	sb.WriteString("(check-sat)\n")
 	s.send(sb.String())
-	ans, err := s.readAnswer()
+	ans, err := s.readAnswerTimed()
 	if err != nil {
 		s.Stats.NUnknown++
 		s.restart()
-		return Unknown, nil, "solver died: " + err.Error()
+		return Unknown, nil, "solver died or exceeded the hard time limit: " + err.Error()
 	}
 	a := strings.TrimSpace(ans)
 	res := Unknown
